@@ -1007,16 +1007,20 @@ static void hs_count_live(mi_page_t* pg, long* live, long* interior) {
   for (int h = 1; h < MAXHEAPS; h++) if (hps[h].alive && hps[h].hp && (uintptr_t)hps[h].hp >= a0 && (uintptr_t)hps[h].hp < a1) (*live)++;      /* heap descriptors are blocks */
   for (int g = 0; g < MAXGROUPS; g++) for (int j = 0; j < grps[g].n; j++) if (grps[g].p[j] && (uintptr_t)grps[g].p[j] >= a0 && (uintptr_t)grps[g].p[j] < a1) (*live)++;
 }
+static int heap_dump_owner = 0;     /* a dump by the owning thread between two of its own calls while other threads run: the queues are stable (only the owner
+                                        changes them), the counts of pending remote frees are not (the dump says quiet = false) */
 static void emit_heaps(void) {
   static long calls = 0;
-  if (!seg_snap_on || (seg_quiet && !seg_quiet()) || (calls++ % 2) != 0) return;
+  int global_quiet = !(seg_quiet && !seg_quiet());
+  if (!seg_snap_on || (!global_quiet && !heap_dump_owner) || (calls++ % 2) != 0) return;
   for (int hi = 0; hi < MAXHEAPS; hi++) {
     if (!hps[hi].alive || hps[hi].hp == NULL || hi == heap_dying) continue;
     mi_heap_t* heap = hps[hi].hp;
     if (heap->thread_id != _mi_thread_id()) continue;
     hs_npages = 0;
-    int quiet = (mi_atomic_load_ptr_relaxed(mi_block_t, &heap->thread_delayed_free) == NULL);
-    vf_logf("{\"e\":\"heap\",\"id\":%d,\"npages\":%zu,\"full\":%d,\"huge\":%d,\"quiet\":%s,\"queues\":[", hps[hi].id, heap->page_count, (int)MI_BIN_FULL + 1, (int)MI_BIN_HUGE + 1, quiet ? "true" : "false");
+    int dlempty = (*(mi_block_t* volatile*)&heap->thread_delayed_free == NULL);
+    int quiet = global_quiet && dlempty;
+    vf_logf("{\"e\":\"heap\",\"id\":%d,\"npages\":%zu,\"full\":%d,\"huge\":%d,\"quiet\":%s,\"dlempty\":%s,\"queues\":[", hps[hi].id, heap->page_count, (int)MI_BIN_FULL + 1, (int)MI_BIN_HUGE + 1, quiet ? "true" : "false", dlempty ? "true" : "false");
     for (size_t b = 0; b <= MI_BIN_FULL; b++) {
       mi_page_queue_t* pq = &heap->pages[b];
       vf_logf("%s{\"bsize\":%zu,\"first\":%d,\"last\":%d,\"pages\":[", b ? "," : "", pq->block_size > 0x3FFFFFFF ? (size_t)0x3FFFFFFF : pq->block_size, hs_pgid(pq->first), hs_pgid(pq->last));
